@@ -166,6 +166,7 @@ def ewidth(e):
   if k in ("zext", "sext", "trunc"): return e[2]
   if k == "cat": return sum(ewidth(x) for x in e[1])
   if k == "cast": return e[2]            # same-width BitsN( expr ) cast
+  if k == "sc": return e[3]             # struct constant kept as an attribute of the component, read whole ( s.KA0 )
   if k == "vf": return e[3]["w"]        # value-returning @s.func helper  name(arg) == arg OP s.<signal>
   if k == "vsl": return e[3]            # variable part-select x[ i : i+size ] (size 1: also the bit select x[i])
   if k == "csl": return e[3] - e[2]     # slice [lo:hi] of a call result ( concat(..)[lo:hi], sext(..)[lo:hi] )
@@ -176,7 +177,7 @@ def ewidth(e):
 def expr_refs(e, out):
   k = e[0]
   if k == "rd": out.append(e[1])
-  elif k in ("c", "fv", "lv"): pass
+  elif k in ("c", "fv", "lv", "sc"): pass
   elif k == "tv": out.append({"tmp": e[1]})
   elif k in ("bin", "cmp"): expr_refs(e[2], out); expr_refs(e[3], out)
   elif k in ("inv", "zext", "sext", "trunc", "csl", "cast"): expr_refs(e[1], out)
@@ -240,7 +241,7 @@ def subst_expr(e, env):
   k = e[0]
   if k == "rd": return ["rd", concretize(e[1], env)]
   if k == "lv": return ["c", env[e[1]], None]
-  if k in ("c", "fv", "tv"): return e
+  if k in ("c", "fv", "tv", "sc"): return e
   if k in ("bin", "cmp"): return [k, e[1], subst_expr(e[2], env), subst_expr(e[3], env)]
   if k == "inv": return [k, subst_expr(e[1], env)]
   if k in ("zext", "sext", "trunc"): return [k, subst_expr(e[1], env)] + list(e[2:])
@@ -257,7 +258,7 @@ def subst_expr(e, env):
 def map_expr(e, f):
   """e rebuilt bottom-up; f(node) -> replacement node (or the node itself)"""
   k = e[0]
-  if k in ("rd", "c", "fv", "tv", "lv"): n = e
+  if k in ("rd", "c", "fv", "tv", "lv", "sc"): n = e
   elif k in ("bin", "cmp"): n = [k, e[1], map_expr(e[2], f), map_expr(e[3], f)]
   elif k == "inv": n = [k, map_expr(e[1], f)]
   elif k in ("zext", "sext", "trunc", "csl", "cast"): n = [k, map_expr(e[1], f)] + list(e[2:])
@@ -312,6 +313,7 @@ def expr_text(e):
   if k == "rd": return ref_text(e[1])
   if k == "c": return str(e[1]) if e[2] is None else bits_ctor(e[2], e[1])
   if k in ("fv", "tv", "lv"): return e[1]
+  if k == "sc": return "s." + e[1]
   if k == "bin": return f"({expr_text(e[2])} {BINOPS[e[1]]} {expr_text(e[3])})"
   if k == "cmp": return f"({expr_text(e[2])} {CMPOPS[e[1]]} {expr_text(e[3])})"
   if k == "inv": return f"(~{expr_text(e[1])})"
@@ -335,7 +337,7 @@ def ev(e, rd, env=None):
   k = e[0]
   if k == "rd": return rd(e[1])
   if k == "c": return e[1]
-  if k == "fv": return e[2]
+  if k in ("fv", "sc"): return e[2]
   if k in ("tv", "lv"): return env[e[1]]
   if k == "bin":
     a, b = ev(e[2], rd, env), ev(e[3], rd, env)
@@ -451,6 +453,8 @@ def emit(design, connect_order=None, connect_style=None, block_order=None):
       L.append(f"    {fvn} = {fvv}")
     for sc in c.get("sconsts", []):
       L.append(f"    {sc['name']} = {sc['text']}")
+    for sc in c.get("sattrs", []):
+      L.append(f"    s.{sc['name']} = {sc['text']}")
     order = list(range(len(c["connects"])))
     if connect_order and cn in connect_order: order = connect_order[cn]
     for i in order:
@@ -1284,7 +1288,7 @@ class Gen:
     rng, k = self.rng, self.k
     if "pt" in p:
       # a nested-struct-typed field can only be connected to a signal of that very type: drive it from a block
-      p = {kk: v for kk, v in p.items() if kk != "pt"}
+      p = dict({kk: v for kk, v in p.items() if kk != "pt"}, stype=p["pt"])
       p["struct_target"] = True
       comb_targets.append((rank, p, list(srcs))); return
     if k.get("p_const") and (isinstance(t, int) or not whole) and rng.random() < k["p_const"]:
@@ -1317,7 +1321,7 @@ class Gen:
       if rng.random() < 0.3 and (isinstance(t, int) or not whole):
         cls["connects"].append([p, {"const": rng.getrandbits(p["w"])}]); return
     if whole and not isinstance(t, int):
-      p = dict(p, struct_target=True)
+      p = dict(p, struct_target=True, stype=t)
     comb_targets.append((rank, p, list(srcs)))
 
   def assign_stmts(self, p, srcs, kind, t=None):
@@ -1330,6 +1334,19 @@ class Gen:
         path, st = rng.choice(same)
         return [["=", p, ["rd", self.root_ref(path, st)]]]
       return [["=", p, ["rd", p]]]
+    st_ = p.get("stype")
+    if kind == "comb" and st_ is not None and not isinstance(st_, int) and st_[0] == "struct" and rng.random() < k.get("p_const_struct", 0) \
+       and getattr(self, "cur_cls", None) is not None:
+      # the block assigns a struct CONSTANT that the component keeps as an attribute ( s.KA0 = T0(...) ), read whole
+      sa = self.cur_cls.setdefault("sattrs", [])
+      same = [x for x in sa if x["type"] == st_]
+      if same and rng.random() < 0.4:
+        sc = rng.choice(same)
+      else:
+        tx, v = struct_const(self.design, st_, rng)
+        sc = {"name": f"KA{len(sa)}", "type": st_, "text": tx, "value": v}
+        sa.append(sc)
+      return [["=", p, ["sc", sc["name"], sc["value"], w]]]
     mk = lambda: self.expr(w, list(srcs), k["expr_depth"])
     def fit(e):
       # an implicit literal must fit the target; make it explicit-safe
